@@ -151,6 +151,10 @@ func WrapContent(t *testing.T, rndReader io.Reader, lsys *ipld.LinkSystem, conte
 		if !exclusive {
 			before := GenerateDirectory(t, lsys, rndReader, 4<<10, false)
 			before.Path = "!before"
+			if before.Path == ps.Last().String() {
+				// the wrapped segment has the decoy's name: siblings must stay distinct
+				before.Path = "!" + before.Path
+			}
 			de = append(de, before)
 		}
 		want.Path = ps.Last().String()
@@ -158,6 +162,9 @@ func WrapContent(t *testing.T, rndReader io.Reader, lsys *ipld.LinkSystem, conte
 		if !exclusive {
 			after := GenerateDirectory(t, lsys, rndReader, 4<<11, true)
 			after.Path = "~after"
+			if after.Path == ps.Last().String() {
+				after.Path += "~"
+			}
 			de = append(de, after)
 		}
 		want = BuildDirectory(t, lsys, de, false)
